@@ -9,7 +9,6 @@ import (
 	"runtime"
 	"sort"
 	"strconv"
-	"strings"
 	"sync"
 	"sync/atomic"
 	"testing"
@@ -427,22 +426,4 @@ func (s *Sim) NamedCount() int {
 	s.mu.Lock()
 	defer s.mu.Unlock()
 	return len(s.named) + len(s.fresh)
-}
-
-// TasksSince reports how many tasks appeared after the first n and whether every one of them is
-// currently parked waiting for a mutex (none ever reached a plain yield).
-func (s *Sim) TasksSince(n int) (count int, allLockWait bool) {
-	s.mu.Lock()
-	defer s.mu.Unlock()
-	allLockWait = true
-	for i := n; i < len(s.named); i++ {
-		if strings.HasPrefix(s.named[i].Name, "server/wrapped_http/") {
-			continue // a prove handler that happened to start meanwhile, not the scrape's goroutine
-		}
-		count++
-		if !(s.named[i].parked && s.named[i].lockWait) {
-			allLockWait = false
-		}
-	}
-	return count, allLockWait && count > 0
 }
